@@ -244,6 +244,46 @@ pub fn check_c01(input: &str, stats: &mut Stats, rng: &mut Rng) {
             }
         }};
     }
+    // the loader's work: the trees it returns hold a number of nodes bounded by a linear function of
+    // the input length (an alias is replaced by a copy, so this is where aliasing shows)
+    {
+        let r = catch(|| {
+            Yaml::load_from_str(input).ok().map(|docs| {
+                let mut stack: Vec<&Yaml> = docs.iter().collect();
+                let mut nodes = 0u64;
+                while let Some(y) = stack.pop() {
+                    nodes += 1;
+                    match y {
+                        Yaml::Sequence(v) => stack.extend(v.iter()),
+                        Yaml::Mapping(m) => {
+                            for (k, v) in m {
+                                stack.push(k);
+                                stack.push(v);
+                            }
+                        }
+                        _ => {}
+                    }
+                }
+                nodes
+            })
+        });
+        match r {
+            Err(p) => c01_panic(stats, input, "Yaml::load_from_str", &p),
+            Ok(None) => {}
+            Ok(Some(nodes)) => {
+                stats.max("max_loaded_nodes_per_char_x100", nodes * 100 / (n as u64 + 1));
+                if nodes > 8 * (n as u64 + 1) + 16 {
+                    let aliases = first.as_ref().is_some_and(|p| p.events.iter().any(|e| matches!(e.0, SEv::Alias(_))));
+                    viol(
+                        stats,
+                        format!("C01/work-bound/loader-nodes/{}", if aliases { "through-aliases" } else { "without-aliases" }),
+                        format!("Yaml::load_from_str built {nodes} nodes from {n} characters (bound 8*(n+1)+16)"),
+                        case_json(input, vec![("config", J::s("Yaml::load_from_str"))]),
+                    );
+                }
+            }
+        }
+    }
     loader!("Yaml::load_from_str", Yaml::load_from_str(input));
     loader!("YamlOwned::load_from_str", YamlOwned::load_from_str(input));
     loader!("MarkedYaml::load_from_str", MarkedYaml::load_from_str(input));
